@@ -724,6 +724,27 @@ fn one_case(ctx: &Ctx, case: u64, l: &mut Local) {
             }
         }
     }
+    // ---- a resolver that itself verifies ANOTHER (honest) token on the same thread before it hands
+    // out the right key: the outer, forged token must still be judged on its own bytes
+    {
+        let inner = t.parts.encode(fmt, 0).unwrap_or_default();
+        let reent = Resolver::Reentrant(alg, 0, inner, fmt);
+        let payload: Value = t.parts.payload().unwrap_or(Value::Null);
+        let mut evil = payload.clone();
+        evil["admin#re;"] = json!(true);
+        structural(&mut j, "re-entrant-resolver-forged-by-other-key", Some(api::sign_payload(alg, 1, &evil, None)), &reent);
+        structural(&mut j, "re-entrant-resolver-payload-changed", tamper::reencode_segment(&t.parts.jwt, 1, |v| { v["admin#re2;"] = json!(true); }), &reent);
+        structural(&mut j, "re-entrant-resolver-signature-emptied", Some(format!("{}.{}.", segs[0], segs[1])), &reent);
+        // control: the honest token under the same resolver is accepted with its own claims
+        let v = verify_parts(&t, &t.parts, &reent);
+        if let Some(v) = v {
+            j.l.evals += 1;
+            match (&v.out, &control.out) {
+                (Outcome::Ok(a), Outcome::Ok(b)) if a == b => j.l.count("control.re-entrant-resolver.accepted"),
+                (o, _) => j.l.violate(Violation { subcheck: "control-rejected".into(), class: "honest token, re-entrant resolver".into(), observed: o.panic_signature().unwrap_or_else(|| o.describe()).chars().take(200).collect(), case, detail: json!({"token": token_desc}) }),
+            }
+        }
+    }
     // signed by a different key of the same family / resolver returning other keys
     {
         let payload: Value = t.parts.payload().unwrap();
